@@ -63,12 +63,33 @@ def sh(cmd, cwd=None, env=None, timeout=3600, stdin=None):
 
 
 def build_harness(race=False):
-    """go build of the harness against /repo's current working tree, hooks on (-tags verif)."""
+    """go build of the harness against /repo's current working tree, hooks on (-tags verif).
+    The harness is one Go package with one file set per property; when a file of ANOTHER property does not compile
+    (work in progress, or a change to /repo broke only that file's API use) the build is retried without the offending
+    files, so that one property's breakage does not take the other checks down (its own sub-command is then missing)."""
     with Lock("harness"):
         shutil.copyfile(os.path.join(REPO, "go.sum"), os.path.join(HARNESS, "go.sum"))
         out = NGHX + ("-race" if race else "")
         cmd = ["go", "build", "-tags", "verif"] + (["-race"] if race else []) + ["-o", out, "."]
         rc, log = sh(cmd, cwd=HARNESS, env=goenv(), timeout=1500)
+        if rc != 0:
+            bad = set(re.findall(r"^\./([A-Za-z0-9_]+\.go):\d+", log, re.M)) - {"main.go", "util.go"}
+            tries = 0
+            fb = os.path.join(RUN, "harness-fallback")
+            while rc != 0 and bad and tries < 4:
+                tries += 1
+                subprocess.run(["rsync", "-a", "--delete", HARNESS + "/", fb + "/"], check=True)
+                for b in bad:
+                    try:
+                        os.remove(os.path.join(fb, b))
+                    except OSError:
+                        pass
+                rc, log2 = sh(cmd, cwd=fb, env=goenv(), timeout=1500)
+                log += "\n[retry without %s]\n%s" % (",".join(sorted(bad)), log2)
+                more = set(re.findall(r"^\./([A-Za-z0-9_]+\.go):\d+", log2, re.M)) - {"main.go", "util.go"}
+                if not more - bad:
+                    break
+                bad |= more
         return rc == 0, log, out
 
 
@@ -88,13 +109,41 @@ def coq_build(targets, timeout=2400):
         return rc == 0, log
 
 
-def scan_forbidden():
-    """no Admitted/admit/Axiom/Parameter/... and no switched-off kernel check anywhere in the development"""
-    bad = []
+def coq_closure(targets):
+    """.v files the given .v targets depend on (transitively), by coqdep"""
+    files = sorted(os.path.relpath(f, COQ) for f in glob.glob(os.path.join(COQ, "**", "*.v"), recursive=True))
+    rc, out = sh(["coqdep", "-Q", ".", "NG"] + files, cwd=COQ)
+    deps = {}
+    for line in out.split("\n"):
+        if ":" not in line:
+            continue
+        lhs, rhs = line.split(":", 1)
+        tv = [x for x in lhs.split() if x.endswith(".vo")]
+        if not tv:
+            continue
+        v = tv[0][:-1]
+        deps[v] = [x[:-1] for x in rhs.split() if x.endswith(".vo") and not x.startswith("/")]
+    seen, todo = set(), [os.path.normpath(t) for t in targets]
+    while todo:
+        t = todo.pop()
+        if t in seen:
+            continue
+        seen.add(t)
+        todo += [os.path.normpath(d) for d in deps.get(t, [])]
+    return seen
+
+
+def scan_forbidden(targets=None):
+    """no Admitted/admit/Axiom/Parameter/... and no switched-off kernel check in the development.
+    Returns (offending lines inside the dependency closure of targets, offending lines elsewhere)."""
+    closure = coq_closure(targets) if targets else None
+    bad, elsewhere = [], []
     for f in glob.glob(os.path.join(COQ, "**", "*.v"), recursive=True):
         in_section = 0
-        for i, line in enumerate(open(f, encoding="utf-8", errors="replace"), 1):
-            code = re.sub(r"\(\*.*?\*\)", "", line)
+        rel = os.path.normpath(os.path.relpath(f, COQ))
+        text = open(f, encoding="utf-8", errors="replace").read()
+        text = re.sub(r"\(\*.*?\*\)", lambda m: re.sub(r"[^\n]", " ", m.group(0)), text, flags=re.S)
+        for i, code in enumerate(text.split("\n"), 1):
             if re.match(r"\s*Section\b", code):
                 in_section += 1
             if re.match(r"\s*End\b", code) and in_section > 0:
@@ -104,8 +153,9 @@ def scan_forbidden():
                 word = m.group(0).strip()
                 if re.match(r"(Variable|Variables|Hypothesis|Hypotheses)", word) and in_section > 0:
                     continue
-                bad.append("%s:%d: %s" % (os.path.relpath(f, VERIF), i, line.strip()[:100]))
-    return bad
+                item = "coq/%s:%d: %s" % (rel, i, code.strip()[:100])
+                (bad if closure is None or rel in closure else elsewhere).append(item)
+    return bad, elsewhere
 
 
 def compile_properties(prop_file):
